@@ -14,11 +14,11 @@ set members (C03).  Theorems hold for every `E` satisfying the stated laws
 the real code), every fuel, and values / types of any depth.  Capsule types have
 no conversion callbacks in the model.
 
-"Placeholder-free" theorems (`…_partial`) assume `RegularPair E v want`: a
-well-formed value, a well-formed target without DynamicPseudoType, and a
-*regular* pair of types — `Convert.regular`, the compatibility that
-`dynamicReplace` assumes of its arguments (see the counterexamples for what
-happens without it).
+"Placeholder-free" theorems (`…_partial`) assume `RegularPair v want`: a
+well-formed value (`Value.wt`: well-formed type without optional-attribute
+annotations, payload of that type) and a well-formed target type without
+DynamicPseudoType.  Targets with placeholders need laws of `unify` that belong to
+C09; what is known to fail there is kept as `def … : Prop` + counterexample.
 -/
 import CtyModel.Lemmas.ConvertUnknown
 import CtyModel.Lemmas.ConvertTotal
@@ -32,58 +32,41 @@ open Convert Ty
 
 /-! ## The result conforms to the requested type -/
 
-/-- Full statement: a successful conversion returns a value whose type conforms to
-the requested type (`TestConformance` reports nothing).  FALSE of the code — see
-`result_conforms_counterexample`. -/
-def ResultConforms : Prop :=
-  ∀ (E : Env) (fuel : Nat) (v r : Value) (want : Ty), UnifyLaws E → Value.wt v = true → want.wf = true →
-    convert E fuel v want = .ok r → conformsTo want r = true
-
-/-- For a placeholder-free target and a regular Env.simple pair the result has exactly the
-requested type without its optional-attribute annotations … -/
+/-- For a placeholder-free target the result has exactly the requested type without
+its optional-attribute annotations … -/
 theorem result_type_partial (E : Env) (hU : UnifyLaws E) (fuel : Nat) (v r : Value) (want : Ty)
-    (hp : RegularPair E v want) (h : convert E fuel v want = .ok r) : r.ty = want.stripOpt :=
+    (hp : RegularPair v want) (h : convert E fuel v want = .ok r) : r.ty = want.stripOpt :=
   convert_ty hU hp h
 
 /-- … hence conforms to it (clause "returns a value whose type conforms to the
 requested type"). -/
 theorem result_conforms_partial (E : Env) (hU : UnifyLaws E) (fuel : Nat) (v r : Value) (want : Ty)
-    (hp : RegularPair E v want) (h : convert E fuel v want = .ok r) : conformsTo want r = true := by
+    (hp : RegularPair v want) (h : convert E fuel v want = .ok r) : conformsTo want r = true := by
   simp [conformsTo, convert_ty hU hp h, conform_stripOpt want hp.wfT hp.noDyn]
 
 /-- The same for a conversion obtained from `GetConversion` / `GetConversionUnsafe`. -/
 theorem result_conforms_getConversion_partial (E : Env) (hU : UnifyLaws E) (fuel : Nat) (uns : Bool)
-    (v r : Value) (want : Ty) (p : Plan) (hp : RegularPair E v want)
+    (v r : Value) (want : Ty) (p : Plan) (hp : RegularPair v want)
     (hg : getConv E v.ty want uns = some p) (h : apply E fuel p v = .ok r) : conformsTo want r = true := by
   simp [conformsTo, apply_ty hU hp hg h, conform_stripOpt want hp.wfT hp.noDyn]
 
-/-- the witness: a null map converted to an object type one of whose optional
-attributes (an object) the map's element type cannot convert to — `dynamicReplace`
-answers the empty object type for that attribute -/
-def conformsWitnessV : Value := ⟨.map .string, .null⟩
-def conformsWitnessT : Ty := .object ["a"] [.object ["b"] [.string] [false]] [true]
-
-theorem result_conforms_counterexample :
-    convert Env.simple 4 conformsWitnessV conformsWitnessT =
-      .ok ⟨.object ["a"] [.object [] [] []] [false], .null⟩ ∧
-    conformErrs conformsWitnessT (.object ["a"] [.object [] [] []] [false]) ≠ 0 := by
-  constructor
-  · rfl
-  · decide
-
-theorem resultConforms_false : ¬ ResultConforms := by
-  intro h
-  have := h Env.simple 4 conformsWitnessV _ conformsWitnessT unifyLaws_simple (by decide) (by decide)
-    result_conforms_counterexample.1
-  revert this
-  decide
+/-- regression witnesses of a repaired defect (`dynamicReplace` assumed that every
+optional attribute of an object target is compatible with the element type of a
+null / unknown map: it answered the empty object type for an object attribute and
+panicked for a tuple attribute): the result now has the target type -/
+example : convert Env.simple 4 ⟨.map .string, .null⟩ (.object ["a"] [.object ["b"] [.string] [false]] [true]) =
+    .ok ⟨.object ["a"] [.object ["b"] [.string] [false]] [false], .null⟩ := rfl
+example : convert Env.simple 4 ⟨.map .string, .null⟩ (.object ["a"] [.tuple [.string]] [true]) =
+    .ok ⟨.object ["a"] [.tuple [.string]] [false], .null⟩ := rfl
+example : convert Env.simple 4 ⟨.map (.tuple []), .unk .unref⟩ (.object ["a"] [.tuple [.bool]] [true]) =
+    .ok ⟨.object ["a"] [.tuple [.bool]] [false], .unk .unref⟩ := rfl
 
 /-! ## No optional-attribute annotation in the result type -/
 
 /-- The result type carries no optional-attribute annotation anywhere (clause "free of
 optional-attribute annotations"), for placeholder-free targets. -/
 theorem result_no_optional_partial (E : Env) (hU : UnifyLaws E) (fuel : Nat) (v r : Value) (want : Ty)
-    (hp : RegularPair E v want) (h : convert E fuel v want = .ok r) : noOptional r = true := by
+    (hp : RegularPair v want) (h : convert E fuel v want = .ok r) : noOptional r = true := by
   simp [noOptional, convert_ty hU hp h, stripOpt_noOpt]
 
 /-- regression witness of a repaired defect (conversionMapToObject filled a missing
@@ -103,7 +86,7 @@ def ResultResolvesPlaceholders : Prop :=
     convert E fuel v want = .ok r → resolvedIn v.ty r.ty = true
 
 theorem result_resolves_placeholders_partial (E : Env) (hU : UnifyLaws E) (fuel : Nat) (v r : Value)
-    (want : Ty) (hp : RegularPair E v want) (h : convert E fuel v want = .ok r) :
+    (want : Ty) (hp : RegularPair v want) (h : convert E fuel v want = .ok r) :
     resolvedIn v.ty r.ty = true := by
   apply resolvedIn_noDyn
   rw [convert_ty hU hp h, stripOpt_hasDyn]
@@ -144,15 +127,15 @@ theorem identity_own_type (E : Env) (fuel : Nat) (v : Value) (hw : Value.wt v = 
 
 /-- Converting the result again gives the same result. -/
 theorem idempotent_partial (E : Env) (hU : UnifyLaws E) (fuel fuel' : Nat) (v r : Value) (want : Ty)
-    (hp : RegularPair E v want) (h : convert E fuel v want = .ok r) : convert E fuel' r want = .ok r :=
+    (hp : RegularPair v want) (h : convert E fuel v want = .ok r) : convert E fuel' r want = .ok r :=
   convert_idempotent hU hp h
 
 /-! ## Unknown and null inputs -/
 
 /-- A null input converts to the null of the target type (placeholder-free target,
-regular Env.simple pair; through `Convert` or any conversion `GetConversion*` returns). -/
+target; through `Convert` or any conversion `GetConversion*` returns). -/
 theorem null_sound_partial (E : Env) (hU : UnifyLaws E) (fuel : Nat) (uns : Bool) (v : Value) (want : Ty)
-    (p : Plan) (hp : RegularPair E v want) (hg : getConv E v.ty want uns = some p)
+    (p : Plan) (hp : RegularPair v want) (hg : getConv E v.ty want uns = some p)
     (hm : v.isMarked = false) (hk : v.isKnown = true) (hn : v.isNull = true) :
     apply E (fuel + 1) p v = .ok (Value.null want.stripOpt) :=
   apply_null_exact hU fuel hp hg hm hk hn
@@ -169,7 +152,7 @@ carrying the refinement `rf`, the refinement is carried only where still true:
 * for a tuple / object converted to a list / map the bounds admit the number of
   elements / attributes; for a tuple converted to a set, between min(1, n) and n. -/
 theorem unknown_sound_partial (E : Env) (hU : UnifyLaws E) (fuel : Nat) (uns : Bool) (v r : Value)
-    (want : Ty) (p : Plan) (hp : RegularPair E v want) (hg : getConv E v.ty want uns = some p)
+    (want : Ty) (p : Plan) (hp : RegularPair v want) (hg : getConv E v.ty want uns = some p)
     (hm : v.isMarked = false) (hk : v.isKnown = false) (h : apply E (fuel + 1) p v = .ok r) :
     r.ty = want.stripOpt ∧
     ∃ rng, Refine.range v = .ok rng ∧ rng.ty = v.ty ∧ ∀ rf, r.v = .unk rf →
@@ -210,34 +193,13 @@ example : convert Env.simple 4 ⟨.set .string, .unk (.coll .u 2 3)⟩ (.set .nu
 
 /-! ## No panic -/
 
-/-- Full statement: no conversion request on a well-formed value panics.  FALSE of
-the code — see `no_panic_counterexample`. -/
-def NoPanic : Prop :=
-  ∀ (E : Env) (fuel : Nat) (v : Value) (want : Ty), UnifyLaws E → SetLaws E → Value.wt v = true →
-    want.wf = true → (convert E fuel v want).isPanic = false
-
-/-- the witness: a null map converted to an object type with an optional attribute of
-tuple type that the map's element type cannot convert to — `dynamicReplace` asks a
-non-tuple type for its tuple elements -/
-theorem no_panic_counterexample :
-    (convert Env.simple 4 ⟨.map .string, .null⟩ (.object ["a"] [.tuple [.string]] [true])).isPanic = true ∧
-    regular Env.simple (.map .string) (.object ["a"] [.tuple [.string]] [true]) = false := by
-  constructor <;> decide
-
-theorem noPanic_false : ¬ NoPanic := by
-  intro h
-  have := h Env.simple 4 ⟨.map .string, .null⟩ (.object ["a"] [.tuple [.string]] [true]) unifyLaws_simple
-    setLaws_simple (by decide) (by decide)
-  rw [no_panic_counterexample.1] at this
-  exact absurd this (by decide)
-
-/-- For a regular Env.simple pair and a value without unknown parts (nulls and marks are
+/-- For a placeholder-free target and a value without unknown parts (nulls and marks are
 allowed at any depth) `Convert` returns a value, an error, or runs out of model
 fuel — never a panic; for every environment satisfying the laws and every fuel.
 (Unknown parts go through the refinement builder, whose freedom from panics on the
 bounds it is handed here is not proved; the harness checks it on every run.) -/
 theorem no_panic_partial (E : Env) (hU : UnifyLaws E) (hS : SetLaws E) (fuel : Nat) (v : Value) (want : Ty)
-    (hp : RegularPair E v want) (hk : Payload.whollyKnown v.v = true) :
+    (hp : RegularPair v want) (hk : Payload.whollyKnown v.v = true) :
     (convert E fuel v want).isPanic = false := by
   have h := (convert_NB hU hS fuel hp hk).1
   cases hr : convert E fuel v want <;> simp [Res.isPanic]
@@ -245,7 +207,7 @@ theorem no_panic_partial (E : Env) (hU : UnifyLaws E) (hS : SetLaws E) (fuel : N
 
 /-- … and neither does any conversion returned by `GetConversion` / `GetConversionUnsafe`. -/
 theorem no_panic_getConversion_partial (E : Env) (hU : UnifyLaws E) (hS : SetLaws E) (fuel : Nat)
-    (uns : Bool) (v : Value) (want : Ty) (p : Plan) (hp : RegularPair E v want)
+    (uns : Bool) (v : Value) (want : Ty) (p : Plan) (hp : RegularPair v want)
     (hk : Payload.whollyKnown v.v = true) (hg : getConv E v.ty want uns = some p) :
     (apply E fuel p v).isPanic = false := by
   have h := (apply_NB hU hS fuel hp hk hg).1
@@ -259,7 +221,7 @@ never reports an error and never panics on a value of the source type without
 unknown parts: the outcome is a value of the target type (or the model's fuel ran
 out).  Errors come only from conversions built in unsafe mode. -/
 theorem safe_total_partial (E : Env) (hU : UnifyLaws E) (hS : SetLaws E) (fuel : Nat) (v : Value) (want : Ty)
-    (p : Plan) (hp : RegularPair E v want) (hk : Payload.whollyKnown v.v = true)
+    (p : Plan) (hp : RegularPair v want) (hk : Payload.whollyKnown v.v = true)
     (hg : getConversion E v.ty want = some p) :
     (∃ r, apply E fuel p v = .ok r ∧ r.ty = want.stripOpt) ∨ apply E fuel p v = .unmodelled := by
   have h := apply_NB hU hS fuel hp hk hg
@@ -279,7 +241,7 @@ example : (apply Env.simple 8 (.wrap (.list .string) (.collToList .string (.wrap
 offered by `GetConversionUnsafe`, and the two give the same outcome on every value
 of the source type (known, unknown, null or marked, any depth), for every fuel. -/
 theorem safe_sub_unsafe_partial (E : Env) (hU : UnifyLaws E) (v : Value) (want : Ty) (p : Plan)
-    (hp : RegularPair E v want) (hg : getConversion E v.ty want = some p) :
+    (hp : RegularPair v want) (hg : getConversion E v.ty want = some p) :
     ∃ p', getConversionUnsafe E v.ty want = some p' ∧ ∀ fuel, apply E fuel p' v = apply E fuel p v := by
   obtain ⟨c, hc, rfl⟩ := Option.map_eq_some_iff.mp hg
   refine ⟨.wrap want (up c), ?_, fun fuel => recEq_apply hU fuel v.ty want c v hc hp.conds⟩
@@ -433,7 +395,7 @@ def sampleV : Value :=
 def sampleT : Ty :=
   .object ["a", "c", "d"] [.set .string, .list .string, .map .number] [false, false, true]
 
-example : RegularPair Env.simple sampleV sampleT := ⟨by decide, by decide, by decide, by decide⟩
+example : RegularPair sampleV sampleT := ⟨by decide, by decide, by decide⟩
 example : UnifyLaws Env.simple := unifyLaws_simple
 example : (convert Env.simple 8 sampleV sampleT).isOk = true := by decide
 
